@@ -31,6 +31,7 @@ func rulesC15(c *Ctx) {
 	ruleNHGReferences(c)
 	ruleDeleteRefs(c)
 	ruleReconcileWiring(c)
+	ruleStateWriters(c, writersReconciler)
 }
 
 const recPkg = modPath + "/rib/reconciler"
@@ -58,6 +59,14 @@ func diffSide(info *types.Info, fi *FuncInfo, o types.Object, depth int) int {
 	}
 	// any assignment x, ok := m[k] / x = m[k], or range value over m
 	side := -1
+	// x := helper(…) where the helper was spliced in: x is what the helper returns
+	for _, a := range frameReturnAliases(info, o) {
+		if a != o {
+			if sd := diffSide(info, fi, a, depth+1); sd >= 0 {
+				side = sd
+			}
+		}
+	}
 	ast.Inspect(fi.Decl.Body, func(n ast.Node) bool {
 		switch s := n.(type) {
 		case *ast.AssignStmt:
@@ -367,7 +376,11 @@ func ruleDiffInstances(c *Ctx) {
 			covers[sd] = true
 			continue
 		}
-		// a local set of names filled from both sides
+		// a local set of names filled from both sides (possibly built by a helper that was spliced in)
+		roots := map[types.Object]bool{root: true}
+		for _, a := range frameReturnAliases(info, root) {
+			roots[a] = true
+		}
 		ast.Inspect(fi.Decl.Body, func(n ast.Node) bool {
 			r2, ok := n.(*ast.RangeStmt)
 			if !ok || r2 == rs {
@@ -383,7 +396,7 @@ func ruleDiffInstances(c *Ctx) {
 				var out []Event
 				inspectNoFuncLit(nd, func(m ast.Node) bool {
 					if as, ok := m.(*ast.AssignStmt); ok && len(as.Lhs) == 1 {
-						if ie, ok := ast.Unparen(as.Lhs[0]).(*ast.IndexExpr); ok && objOfIdent(info, ie.X) == root && objOfIdent(info, ie.Index) == objOfIdent(info, r2.Key) && r2.Key != nil {
+						if ie, ok := ast.Unparen(as.Lhs[0]).(*ast.IndexExpr); ok && roots[objOfIdent(info, ie.X)] && objOfIdent(info, ie.Index) == objOfIdent(info, r2.Key) && r2.Key != nil {
 							out = append(out, Event{Kind: "add", Node: as})
 						}
 					}
